@@ -7,6 +7,7 @@ Direct check on the implementation, exactly as the property's quantifier text sa
 """
 import math
 import warnings
+from fractions import Fraction
 
 from ..shim import dp, np
 from .. import gen, leanio
@@ -47,6 +48,7 @@ RULE = ("(t) numeric types: states whose ceilings, slack and spends are given as
 SIG_FLAT = "C18:maximal:quadratic-flat-near-exhausted"
 SIG_DELTA_ULP = "C18:bounds:delta:rounding-above-ceiling"
 SIG_STALE = "C18:remaining:stale-live-state"
+SIG_DELTA_NEAR_ONE = "C18:spendable:delta:rounding-near-one"
 BudgetError = dp.utils.BudgetError
 warnings.filterwarnings("ignore", category=RuntimeWarning, module=r"diffprivlib\.accountant")
 
@@ -68,6 +70,8 @@ def gen_state(r):
     """(ce, cd, slack, spent) with every spend accepted by the implementation"""
     ce = r.choice([float("inf"), 1.0, 1.0, 0.5, 3.0, r.loguniform(1e-3, 100.0), r.loguniform(1e-3, 100.0), 10.0])
     cd = r.choice([1.0, 0.0, 0.0, 1e-5, 0.5, r.uniform(0, 1), r.loguniform(1e-9, 1e-2)])
+    if r.chance(0.04):
+        cd = 1.0 - r.loguniform(1e-7, 1e-2)     # delta ceiling next to 1: (1 - delta) carries few significant bits
     if r.chance(0.02) and cd > 0:
         ce = 0.0
     if math.isinf(ce) and r.chance(0.4):
@@ -107,7 +111,29 @@ def gen_state(r):
     return (ce, cd, slack, [(float(e), float(d)) for e, d in acc.spent_budget])
 
 
+def gen_tiny_delta(r):
+    """(state, k): EVERY delta in play - the recorded ones, the slack and the delta remaining(k) returns - is below 1e-8
+    while there are many of them, so that the composed delta differs from the plain sum only by cross terms ~1e-13"""
+    n, k = r.randint(35, 50), r.randint(10, 20)
+    slack = float(r.choice([0.0, 0.0, r.uniform(1e-9, 9e-9)]))
+    ds = [float(r.uniform(6e-9, 9.5e-9)) for _ in range(n)]
+    if r.chance(0.5):
+        ds = [ds[0]] * n
+    cd = float(slack + sum(ds) + k * r.uniform(5e-9, 9e-9))
+    ce = float(r.choice([10.0, 10.0, 1.0, 100.0]))
+    return (ce, cd, slack, [(ce / 1000, d) for d in ds]), k
+
+
+NEAR_ONE_WITNESS = ((1.0, 0.9997650043882435, 0.0, [
+    (0.0010215528618232118, 0.0958378036171496), (0.005388719667879623, 0.0), (0.0, 0.012731894820638086),
+    (0.009073536930116676, 0.0), (0.01624744703144434, 0.00013166356538999547), (0.003529312812904394, 0.00015289178360735825),
+    (0.016817092557663307, 0.0), (0.18958369359984728, 0.0), (0.0011713888766352266, 0.0),
+    (0.0024435001704450504, 0.00726024508803332), (0.01131639829812962, 0.0), (0.0020411403816043058, 0.0),
+    (0.0014010290865106739, 0.0), (0.0017793793134785484, 0.07957817812269012), (0.002882649667943505, 0.0),
+    (0.003959146957252368, 0.0777764009219789), (0.0021584574296243243, 0.0), (0.022216129272856974, 0.0)]), 19)
+
 FIXED = [
+    NEAR_ONE_WITNESS, ((10.0, 6e-7, 0.0, [(0.01, 9e-9)] * 50), 20), ((1.0, 4.2e-7, 5e-9, [(0.001, 8e-9)] * 40), 12),
     ((1.0, 0.0, 0.0, []), 1), ((1.0, 0.0, 0.0, [(0.1, 0.0)] * 10), 1), ((1.0, 0.5, 0.25, [(0.05, 0.0)] * 40), 3),
     ((float("inf"), 1.0, 0.0, [(5.0, 0.5), (1.0, 1.0)]), 2), ((float("inf"), 0.5, 0.1, [(5.0, 0.2)]), 4),
     ((3.0, 1e-5, 1e-6, [(0.01, 1e-7)] * 50), 20), ((0.0, 0.5, 0.0, [(0.0, 0.1)]), 2), ((1.0, 1.0, 0.0, [(0.5, 1.0)]), 5),
@@ -115,6 +141,31 @@ FIXED = [
 
 
 # ---------------------------------------------------------------- direct checks on the implementation
+
+def delta_rounding_near_one(state, e, d, i):
+    """Is the refusal of spend #i (1-based) of the spend-back experiment the known rounding of the DELTA total next to a
+    delta ceiling close to 1?  Exact criterion (all four must hold; anything else stays `C18:spendable`):
+      1. the delta ceiling is >= 0.99 (there (1 - ceiling) * k * 1e-15, what the property's 1e-15 allowance buys in terms
+         of the product (1-slack)*prod(1-d_j), is below the resolution 2^-53 of a total next to 1);
+      2. the implementation's own total(history + i*[(e, d)]) has epsilon <= the epsilon ceiling (epsilon is not the cause);
+      3. its delta overshoots the delta ceiling by at most 16 ulp(ceiling) (a handful of roundings, not a formula error);
+      4. in EXACT rational arithmetic on the same doubles, 1 - (1-slack) * prod(1-d_j) * (1-d)^i <= ceiling + 64 ulp(1-ceiling),
+         i.e. the spends do fit; only the double accumulation of the product says otherwise."""
+    ce, cd, slack, spent = state
+    if not cd >= 0.99:
+        return False
+    try:
+        t = quiet(make(ce, cd, slack, []).total, spent_budget=list(spent) + [(e, d)] * i)
+    except Exception:  # noqa
+        return False
+    te, td = float(t[0]), float(t[1])
+    if not (te <= ce and cd < td <= cd + 16 * math.ulp(cd)):
+        return False
+    prod = (1 - Fraction(slack)) * (1 - Fraction(d)) ** i
+    for _, dj in spent:
+        prod *= 1 - Fraction(dj)
+    return 1 - prod <= Fraction(cd) + 64 * Fraction(math.ulp(1 - cd))
+
 
 def check_state(state, k, extra=None, live_rem=None, live_sig=None, live_desc="the long-lived accountant's"):
     """All C18 clauses on one accountant state.  Returns (list of (signature, what), info).
@@ -167,8 +218,11 @@ def check_state(state, k, extra=None, live_rem=None, live_sig=None, live_desc="t
             try:
                 quiet(c.spend, e_lo, max(0.0, dr - 1e-15))
             except Exception as ex:  # noqa
-                out.append(("C18:spendable", f"{here}; spend #{i + 1} of {k} of ({e_lo!r}, {max(0.0, dr - 1e-15)!r}) on a "
-                                             f"re-constructed copy raised {type(ex).__name__}: {str(ex)[:80]}"))
+                sig = "C18:spendable"
+                if isinstance(ex, BudgetError) and delta_rounding_near_one(state, e_lo, max(0.0, dr - 1e-15), i + 1):
+                    sig = SIG_DELTA_NEAR_ONE
+                out.append((sig, f"{here}; spend #{i + 1} of {k} of ({e_lo!r}, {max(0.0, dr - 1e-15)!r}) on a "
+                                 f"re-constructed copy raised {type(ex).__name__}: {str(ex)[:80]}"))
                 break
     elif er > min_eps:
         info["boundary"] = True
@@ -421,6 +475,11 @@ def check(ctx):
             ctx.boundary_skipped += 1
             continue
         cases.append((state, k, {"seq": list(seq), "rem": live_rem}))
+    # every delta below 1e-8, many of them
+    rt = ctx.fork("tiny-delta")
+    for _ in range(ctx.budget(25, 400)):
+        st, k = gen_tiny_delta(rt)
+        cases.append((st, k, None))
     # unlimited accountants with arbitrary histories
     for _ in range(ctx.budget(30, 300)):
         spent = [(float(r.loguniform(1e-3, 100)), float(r.choice([0.0, r.u01(), 1.0]))) for _ in range(r.randint(0, 50))]
@@ -575,7 +634,19 @@ def _witness_delta_ulp(ctx):
             f"(1 - (1 - ceiling) rounds up); spend(0.1, that delta) refused: {refused}")
 
 
-WITNESSES = {SIG_FLAT: _witness_flat, SIG_DELTA_ULP: _witness_delta_ulp}
+def _witness_delta_near_one(ctx):
+    state, k = NEAR_ONE_WITNESS
+    viol, info = check_state(state, k)
+    hit = [w for sg, w in viol if sg == SIG_DELTA_NEAR_ONE]
+    return (bool(hit),
+            f"BudgetAccountant(1.0, {state[1]!r}) with 18 spends (total delta 0.2525): remaining(19) = {info['remaining']!r}; "
+            f"19 spends of (eps*(1-1e-9), delta-1e-15) on a re-constructed copy: "
+            + (hit[0].split('; ', 1)[1][:120] if hit else "all accepted") +
+            " - in exact arithmetic they fit; the double accumulation of prod(1-delta) next to a ceiling of 1-2.3e-4 does not "
+            "resolve the 1e-15 allowance")
+
+
+WITNESSES = {SIG_FLAT: _witness_flat, SIG_DELTA_ULP: _witness_delta_ulp, SIG_DELTA_NEAR_ONE: _witness_delta_near_one}
 
 
 # translator tie: the arithmetic of total()/remaining() is re-read from /repo's AST on every run, translated to Lean
